@@ -79,16 +79,27 @@ def propagate_function(f, ref_names):
                 continue
             # an expression that builds a new object (display, comprehension, arbitrary call) has identity: it may only replace a single use,
             # and never a use that mutates it (receiver of a method call, target of an item / attribute store)
-            PURE = {'len', 'min', 'max', 'abs', 'int', 'float', 'str', 'bool', 'tuple', 'sum', 'round'}
+            PURE = {'len', 'min', 'max', 'abs', 'int', 'float', 'str', 'bool', 'tuple', 'sum', 'round', 'dict', 'zip', 'list', 'set', 'sorted', 'frozenset', 'range', 'enumerate',
+                    'isinstance', 'repr', 'ord', 'chr', 'any', 'all', 'reversed', 'map', 'filter'}
+            # an expression that calls anything but a pure builtin may have effects (reading a file, advancing an iterator): it replaces a
+            # single use only.  An expression that builds a new object (display, comprehension, constructor) has identity: it is never
+            # substituted into a use that can mutate it (attribute access / item store on the name) and not when the name is aliased.
+            impure = any(isinstance(x, ast.Call) and not (isinstance(x.func, ast.Name) and x.func.id in PURE) for x in ast.walk(e))
+            SCALAR = {'len', 'min', 'max', 'abs', 'int', 'float', 'str', 'bool', 'sum', 'round', 'ord', 'chr', 'isinstance', 'any', 'all', 'repr'}
             builds = any(isinstance(x, (ast.List, ast.Dict, ast.Set, ast.ListComp, ast.SetComp, ast.DictComp, ast.GeneratorExp)) or
-                         (isinstance(x, ast.Call) and not (isinstance(x.func, ast.Name) and x.func.id in PURE)) for x in ast.walk(e))
+                         (isinstance(x, ast.Call) and not (isinstance(x.func, ast.Name) and x.func.id in SCALAR)) for x in ast.walk(e))
+            loads = [n for n in ast.walk(f) if isinstance(n, ast.Name) and n.id == v and isinstance(n.ctx, ast.Load)]
+            if impure and len(loads) != 1:
+                continue
             if builds:
-                loads = [n for n in ast.walk(f) if isinstance(n, ast.Name) and n.id == v and isinstance(n.ctx, ast.Load)]
                 mutated = any((isinstance(n, ast.Attribute) and isinstance(n.value, ast.Name) and n.value.id == v) or
                               (isinstance(n, ast.Subscript) and isinstance(n.value, ast.Name) and n.value.id == v and isinstance(n.ctx, (ast.Store, ast.Del)))
                               for n in ast.walk(f))
                 aliased = any(isinstance(n, ast.Assign) and isinstance(n.value, ast.Name) and n.value.id == v for n in ast.walk(f))
                 if mutated or (len(loads) != 1 and aliased):
+                    continue
+                # a generator expression is consumed by its first use
+                if isinstance(e, ast.GeneratorExp) and len(loads) != 1:
                     continue
             blk = _find_block(f, d)
             if blk is None:
